@@ -208,8 +208,9 @@ def check_case(case):
         walk_decl(decl)
         if sorted(declared) != sorted([list(o) for o in case["problem"]["objects"]]):
             raise pddl.Invalid("object declaration does not match the object table")
-        if any(g[1] is None for g in decl[:-1] if not isinstance(g, dict)):
-            raise pddl.Invalid("untyped names only at the end of the object list")
+        public = [g for g in decl if not isinstance(g, dict)]       # (a private block is a list of its own)
+        if any(g[1] is None for g in public[:-1]):
+            raise pddl.Invalid("untyped names only at the end of the public object list")
     pr, dname = apply_corruption(dom, case["problem"], case.get("corrupt"))
     keys = [tuple(k) for k, _ in pr["fluents"]]
     if len(set(keys)) != len(keys):
@@ -264,6 +265,15 @@ def check_case(case):
     if not okp:
         res.bad(f"C05/rejects-valid/exception:{prob.key}", {**info, "error": repr(prob)})
         return res
+    if case.get("later"):
+        # one more (valid) problem over the same Domain object, read after the one under test: other values for every
+        # fluent, one fact less, one object more; what was returned before stays what it was
+        base = case["problem"]
+        later = dict(base, name="later", objects=[list(o) for o in base["objects"]] + [["latecomer", "object"]], object_decl=None,
+                     fluents=[[k, "77" if str(v) != "77" else "78"] for k, v in base["fluents"]], facts=list(base["facts"][1:]),
+                     goal_lits=list(base["goal_lits"][1:]))
+        lib_call(parse_problem_text, sexpr.render(P.problem_tree(dom, later, dom["name"])), domain)
+        res.classes = [c + "+later" for c in res.classes]
     okr, got = lib_call(read_problem, prob)
     if not okr:
         res.bad(f"C05/readback/exception:{got.key}", {**info, "error": repr(got)})
@@ -282,7 +292,7 @@ def gen_corruption(ch, dom, pr):
     kinds = [(3, "swap-arg"), (2, "arity-less"), (2, "arity-more"), (2, "undeclared-name"), (2, "undeclared-object"), (1, "wrong-domain")]
     kind = ch.weighted(kinds)
     if kind == "wrong-domain" or not wheres:
-        return {"kind": "wrong-domain", "name": ch.choice(["other", dom["name"] + "x", "dom"])}
+        return {"kind": "wrong-domain", "name": ch.choice(["other", dom["name"] + "x", "dom", dom["name"] + "-", dom["name"] + "_", "_" + dom["name"], dom["name"] + "-" + dom["name"]])}
     where = ch.choice(wheres)
     n = len({"fact": pr["facts"], "fluent": pr["fluents"], "goal_lit": pr["goal_lits"], "goal_cond": pr["goal_conds"]}[where])
     allobjs = [n_ for n_, _ in pr["objects"]] + [n_ for n_, _ in dom["constants"]]
@@ -306,6 +316,8 @@ def gen(ch, tier):
             pass
     if ch.flag(0.4):
         case["earlier"] = True
+    if ch.side("later").flag(0.4):
+        case["later"] = True
     return case
 
 
